@@ -29,7 +29,9 @@ Mutations == {"none", "inc_undeclared_rel", "trav_undeclared_rel", "trav_undecla
               \* a name that another class declares, but not the class that uses it
               "inc_foreign_rel", "trav_foreign_rel", "perm_foreign",
               \* the spelling other Zanzibar dialects give a wildcard relation: an undeclared name like any other
-              "ss_dots_rel"}
+              "ss_dots_rel",
+              \* names with a dot: class "G.x" declares m, class G does not declare "x.m" - the qualified names read alike
+              "trav_dotted_collision"}
 \* the order of the classes in the document means nothing
 Orders == {"UGD", "DGU", "DUG"}
 \* dup: the unmutated body appears first as another permission of D (the same relation is traversed twice in one document)
@@ -45,6 +47,7 @@ Applicable(P) ==
     [] P.mut \in {"ss_undeclared_rel", "ss_undeclared_ns", "ss_dots_rel"} -> P.pt \in {"SSGm", "G|SSGm"}
     [] P.mut = "inc_foreign_rel" -> P.body = "inc_parents"
     [] P.mut = "trav_foreign_rel" -> P.body \in {"trav_rel_m", "trav_perm_view", "trav_rel_self"}
+    [] P.mut = "trav_dotted_collision" -> P.body = "trav_rel_m" /\ P.pt \in {"G", "G|SSGm"}
     [] P.mut = "perm_foreign" -> P.body = "this_perm_q" /\ ~P.dview /\ (P.gview \/ P.uview)
 
 \* declared types as sequences of <<namespace, relation>>
@@ -94,12 +97,14 @@ Offending(P) ==
     [] P.mut \in {"inc_foreign_rel", "trav_foreign_rel"} -> "m"
     [] P.mut = "perm_foreign" -> "view"
     [] P.mut = "ss_dots_rel" -> "..."
+    [] P.mut = "trav_dotted_collision" -> "x.m"
     [] OTHER -> ""
 BodyTxtM(P, mutated) ==
   LET r == IF mutated /\ P.mut \in {"inc_undeclared_rel", "trav_undeclared_rel"} THEN "zz"
            ELSE IF mutated /\ P.mut \in {"inc_foreign_rel", "trav_foreign_rel"} THEN "m" ELSE "parents"
       c == IF mutated /\ P.mut = "trav_undeclared_crel" THEN "zz" ELSE Crel(P)
-  IN CASE P.body = "inc_parents" -> "this.related." \o r \o ".includes(ctx.subject)"
+  IN CASE mutated /\ P.mut = "trav_dotted_collision" -> "this.related.parents.traverse((x) => x.related[\"x.m\"].includes(ctx.subject))"
+       [] P.body = "inc_parents" -> "this.related." \o r \o ".includes(ctx.subject)"
        [] P.body \in {"trav_rel_m", "trav_rel_self"} -> "this.related." \o r \o ".traverse((x) => x.related." \o c \o ".includes(ctx.subject))"
        [] P.body = "trav_perm_view" -> "this.related." \o r \o ".traverse((x) => x.permits." \o c \o "(ctx))"
        [] OTHER -> "this.permits." \o (IF mutated /\ P.mut = "perm_undeclared" THEN "zz" ELSE IF mutated /\ P.mut = "perm_foreign" THEN "view" ELSE "q") \o "(ctx)"
@@ -117,7 +122,8 @@ ClassD(P) ==
   \o (IF P.dview THEN "    " \o ViewTxt("parents") \o ",\n" ELSE "")
   \o (IF P.dup THEN "    p0: (ctx: Context): boolean => " \o BodyTxtM(P, FALSE) \o ",\n" ELSE "")
   \o "    p: (ctx: Context): boolean => " \o BodyTxt(P) \o "\n  }\n}\n"
-Source(P) == CASE P.order = "UGD" -> ClassU(P) \o ClassG(P) \o ClassD(P)
+ClassGx(P) == IF P.mut = "trav_dotted_collision" THEN "class \"G.x\" implements Namespace {\n  related: { m: U[] }\n}\n" ELSE ""
+Source(P) == ClassGx(P) \o CASE P.order = "UGD" -> ClassU(P) \o ClassG(P) \o ClassD(P)
                [] P.order = "DGU" -> ClassD(P) \o ClassG(P) \o ClassU(P)
                [] OTHER -> ClassD(P) \o ClassU(P) \o ClassG(P)
 
